@@ -82,13 +82,13 @@ Definition migrate_one (dry : bool) (acc : store * store) (t : mig_task) : store
 Definition migrate (dry : bool) (src dst : store) (ts : list mig_task) : store * store :=
   fold_left (migrate_one dry) ts (src, dst).
 
-(* pairing of the two chains by full name (new_chain[name]); a name without counterpart is an error *)
+(* pairing of the two chains: the name-mode task and the task the parameter-mode chain knows under the same
+   name (new_chain.tasks[name] - a task object shared by several namespaces is found under each of its names);
+   a name without counterpart is an error *)
 Definition pair_tasks (olds : list old_task) (rc : rchain) (objs : list obj) (classes : list tclass)
   : res (list mig_task) :=
   sequence (map (fun ot =>
-    match find (fun t => match nth_error objs (snd t) with
-                         | Some o => str_eqb (o_fullname o) (ot_fullname ot)
-                         | None => false end) (rc_tasks rc) with
+    match find (fun t => str_eqb (fst t) (ot_fullname ot)) (rc_tasks rc) with
     | None => inr ENotFound
     | Some t =>
         match nth_error objs (snd t) with
